@@ -8,7 +8,7 @@ import (
 	"github.com/zen-eth/shisui/portalwire"
 	"pgregory.net/rapid"
 	"verifharness/gen"
-	"verifharness/model"
+	model "verifharness/mframing"
 	"verifharness/pbt"
 	"verifharness/pp"
 	"verifharness/stats"
